@@ -88,6 +88,7 @@ pub fn main(args: &[String]) -> i32 {
 		if crate::util::skip_case(case_no) {
 			continue
 		}
+		crate::util::watch_begin(&out, &[20, case_no]);
 		let ncols = rng.range(1, 3) as usize;
 		let mut src: Vec<Flags> = Vec::new();
 		let mut dst: Vec<Flags> = Vec::new();
@@ -272,6 +273,7 @@ pub fn main(args: &[String]) -> i32 {
 				case.extend_from_slice(&[p as u64, v, n]);
 			}
 		}
+		crate::util::watch_end();
 		out.case(&case);
 		out.obs(&obs);
 		match verdict {
